@@ -78,20 +78,47 @@ impl<F: Future> Future for Budget<F> {
     }
 }
 
+/// C17 under threads: a future that has just returned Pending must not report
+/// `is_terminated()` (a `select!`-style caller would never poll it again).
+struct FusedCheck<F> {
+    fut: F,
+}
+impl<F: Future + futures_core::future::FusedFuture> Future for FusedCheck<F> {
+    type Output = F::Output;
+    fn poll(self: Pin<&mut Self>, cx: &mut Context<'_>) -> Poll<F::Output> {
+        // Safety: structural pinning of `fut`
+        let this = unsafe { self.get_unchecked_mut() };
+        let r = unsafe { Pin::new_unchecked(&mut this.fut) }.poll(cx);
+        match &r {
+            Poll::Pending => {
+                if this.fut.is_terminated() {
+                    violation("C17", "pending-but-terminated", "a future returned Pending from a poll and reports is_terminated() == true right afterwards".into());
+                }
+            }
+            Poll::Ready(_) => {
+                if !this.fut.is_terminated() {
+                    violation("C17", "completed-but-not-terminated", "a future returned Ready from a poll and reports is_terminated() == false right afterwards".into());
+                }
+            }
+        }
+        r
+    }
+}
+
 /// Runs `mk()` to completion, but with probability `p_budget` % per attempt under a budget:
 /// a budgeted attempt that gives up is dropped (cancelled while pending or while notified) and a
 /// fresh future is made. At most three cancellations, then an unbudgeted attempt.
-fn with_cancellations<F: Future>(p_budget: u64, mk: impl Fn() -> F) -> F::Output {
+fn with_cancellations<F: Future + futures_core::future::FusedFuture>(p_budget: u64, mk: impl Fn() -> F) -> F::Output {
     for _ in 0..3 {
         if draw(100) < p_budget {
-            if let Some(v) = block_on(budgeted(mk(), draw(3) as u32)) {
+            if let Some(v) = block_on(budgeted(FusedCheck { fut: mk() }, draw(3) as u32)) {
                 return v;
             }
         } else {
             break;
         }
     }
-    block_on(mk())
+    block_on(FusedCheck { fut: mk() })
 }
 
 /// C01 (f): once every future is gone every wait queue must be empty. `is_live ≡ false`:
@@ -2114,8 +2141,8 @@ static T_SEM: ThreadScenDef = ThreadScenDef { name: "T-sem", props: &["C05", "C0
 static T_CHAN: ThreadScenDef = ThreadScenDef { name: "T-chan", props: &["C08", "C09", "C10", "C01"], draw_cfg: cfg_chan, body: t_chan, liveness_prop: "C10" };
 static T_CHAN_SHARED: ThreadScenDef = ThreadScenDef { name: "T-chan-shared", props: &["C08", "C09", "C10", "C11", "C01"], draw_cfg: cfg_chan, body: t_chan_shared, liveness_prop: "C10" };
 static T_EVENT: ThreadScenDef = ThreadScenDef { name: "T-event", props: &["C14", "C01"], draw_cfg: cfg_event, body: t_event, liveness_prop: "C14" };
-static T_ONESHOT: ThreadScenDef = ThreadScenDef { name: "T-oneshot", props: &["C12", "C11", "C01"], draw_cfg: cfg_oneshot, body: t_oneshot, liveness_prop: "C12" };
-static T_STATE: ThreadScenDef = ThreadScenDef { name: "T-state", props: &["C13", "C11", "C01"], draw_cfg: cfg_state, body: t_state, liveness_prop: "C13" };
+static T_ONESHOT: ThreadScenDef = ThreadScenDef { name: "T-oneshot", props: &["C12", "C11", "C17", "C01"], draw_cfg: cfg_oneshot, body: t_oneshot, liveness_prop: "C12" };
+static T_STATE: ThreadScenDef = ThreadScenDef { name: "T-state", props: &["C13", "C11", "C17", "C01"], draw_cfg: cfg_state, body: t_state, liveness_prop: "C13" };
 static T_HANDLES: ThreadScenDef = ThreadScenDef { name: "T-handles", props: &["C11", "C08", "C01"], draw_cfg: cfg_handles, body: t_handles, liveness_prop: "C11" };
 static T_TIMER: ThreadScenDef = ThreadScenDef { name: "T-timer", props: &["C15", "C01"], draw_cfg: cfg_timer, body: t_timer, liveness_prop: "C15" };
 
